@@ -148,10 +148,19 @@ def check(h, reason):
         if trig is None:
             break
         # how the phase ended
-        first_stop = next((e for e in pe if e["kind"] in ("shutdown-call", "sigint-sent") or (e["kind"] in ("raise", "return") and specs.get(e.get("pid"), {}).get("fails"))), None)
+        # only stops aimed at *this* runner: a driver of the previous phase may still be on its way to a
+        # shutdown() of the runner that has already ended (harmless, and not this runner's business)
+        def mine(e):
+            if e["kind"] == "shutdown-call":
+                return e.get("runner") == i
+            if e["kind"] == "sigint-sent":
+                return e.get("pid") == "d%d" % i
+            return e["kind"] in ("raise", "return") and specs.get(e.get("pid"), {}).get("fails") and specs[e["pid"]].get("phase") == i
+
+        first_stop = next((e for e in pe if mine(e)), None)
         if first_stop is None:
             continue
-        failed = any(e["kind"] in ("raise", "return") and specs.get(e.get("pid"), {}).get("fails") for e in pe)
+        failed = any(e["kind"] in ("raise", "return") and mine(e) for e in pe)
         if ended is None:
             if S.now - first_stop["t"] > bound or reason == "deadlock":
                 pops = "%s/%s" % (end, ph["pop"])
@@ -161,7 +170,7 @@ def check(h, reason):
             V("C12/accept-late/%s" % end, "runner %d: accept() ended %.2fs after %s (bound %.2f)" % (i, ended["t"] - first_stop["t"], first_stop["kind"], bound))
         if not failed and ended["how"] != "returned":
             V("C12/accept-raised/%s/%s" % (end, ended.get("type")), "runner %d: after %s accept() raised %s (cause %r) instead of returning normally" % (i, end, ended.get("type"), ended.get("cause_types")))
-        for sc_ in [e for e in pe if e["kind"] == "shutdown-call"]:
+        for sc_ in [e for e in pe if e["kind"] == "shutdown-call" and mine(e)]:
             done = next((e for e in ev if e["kind"] in ("shutdown-returned", "shutdown-raised") and e["seq"] > sc_["seq"] and e.get("by") == sc_.get("by")), None)
             if done is None:
                 if S.now - sc_["t"] > bound or reason == "deadlock":
